@@ -62,7 +62,12 @@ func (e *Enum) GetAST() (schema.ASTNode, error) {
 		return schema.ASTNode{}, err
 	}
 
-	return e.buildASTNode()
+	an, err := e.buildASTNode()
+	if err != nil {
+		return schema.ASTNode{}, err
+	}
+	// A copy: the node is built once and kept, the caller may change what it gets.
+	return an.Copy(), nil
 }
 
 func (e *Enum) buildASTNode() (schema.ASTNode, error) {
